@@ -2458,11 +2458,17 @@ fn special_stream(ctx: &mut Ctx) {
 /// this binary) and again here, in a process that has already called everything; the id hashes of
 /// the two must agree and every member must pass the oracle in both.
 fn first_call_sequences(ctx: &mut Ctx) {
-    let exe = match std::env::current_exe() {
-        Ok(e) => e,
-        Err(_) => {
-            ctx.count("context:first-call-sequence:no-exe");
-            return;
+    // /proc/self/exe keeps working when the file of the running binary is replaced by a rebuild
+    let proc_exe = std::path::PathBuf::from("/proc/self/exe");
+    let exe = if proc_exe.exists() {
+        proc_exe
+    } else {
+        match std::env::current_exe() {
+            Ok(e) => e,
+            Err(_) => {
+                ctx.count("context:first-call-sequence:no-exe");
+                return;
+            }
         }
     };
     // (dimension, kind) orders; the curve orders are the maxima of each dimension, so a maximum
